@@ -68,7 +68,7 @@ type Contract struct {
 	Modifies  []string
 	Effects   []*Effect
 	Line      int
-	NoSafety  bool     // do not emit implicit safety obligations (used for spec helpers)
+	NoSafety  bool                 // do not emit implicit safety obligations (used for spec helpers)
 	Callbacks map[string]*Contract // contracts for func-typed params
 	Notes     []string
 	Lemma     bool // pure lemma: no body, requires ==> ensures checked as a formula
